@@ -3,7 +3,7 @@ CONSTANTS
  R = 3
  Keys = {"k1","k2"}
  Vals = {"", "0", "1", "9223372036854775807", "-9223372036854775808", "x"}
- OptKeys = {"k1","k2"}
+ OptKeys = {"k1"}
  OptVals = {"1", "9223372036854775807", "x"}
  Deltas = {"1", "-1", "2", "9223372036854775807", "-9223372036854775808", "-9223372036854775807", "x", ""}
  Shorts = {"@S1","@S2"}
